@@ -2,14 +2,15 @@
    (RRWeekSweep0..6.v): for the 4 shapes with that weekday x 7 week starts:
    - the phase-2 / phase-3 operations and the phase-1 operation for every n in -54..54 run without
      IndexError on the zero mask, and 1 <= numweeks <= 53;
-   - for every SAFE member n in -51..51 the single-member mask says "day of week n" on every used
-     index.  (n in {-53,-52,52,53} is where dateutil is wrong: F-C01-weekno.) *)
+   - for every member n in -53..53 (the RFC 5545 range) the single-member mask says "day of week n"
+     on every used index.  (Before /repo commit 83f8e67 this failed for n in {-53,-52,52,53}:
+     fixed finding F-C01-weekno.) *)
 From Coq Require Import ZArith List Bool.
 From V Require Import base.Cal gen.RrTables rr.RRBase rr.RRNorm rr.RRMasks rr.RROverlay rr.RRWeekDefs rr.RRWeekThm.
 Import ListNotations.
 Open Scope Z_scope.
 
-Definition safe_ns : list Z := zrange (-51) 52.
+Definition safe_ns : list Z := zrange (-53) 54.
 Definition near_ns : list Z := zrange (-54) 55.
 Definition is_ok {A} (r : res A) : bool := match r with Ok _ => true | Err _ => false end.
 Definition sh_wdm (sh : shape) : list Z := py_from T_WDAYMASK (sh_ywd sh).
